@@ -332,6 +332,18 @@ func ecdsaReferenceAgreement(p *Prog, r *Report, R6 string) {
 			r.Fail(R6, key, "-", "function missing on one side")
 			return
 		}
+		embedResultNames = nil
+		if ff.Type.Results != nil {
+			for _, f := range ff.Type.Results.List {
+				if len(f.Names) == 0 {
+					embedResultNames = append(embedResultNames, "")
+				}
+				for _, n := range f.Names {
+					embedResultNames = append(embedResultNames, n.Name)
+				}
+			}
+		}
+		defer func() { embedResultNames = nil }()
 		// reference statements from the one starting with `from` to the end,
 		// excluding reference-only statements (signature parsing/encoding)
 		var rs []ast.Stmt
